@@ -122,6 +122,18 @@ pub fn run(rep: &mut Report, thorough: bool) {
             let data: Vec<u8> = (0..n).map(|x| (x * 7) as u8).collect();
             flow(i % 2 == 1, 1, 1).icmp_echo(0x1234, 1, &data)
         });
+        // STUN CHANGE-REQUEST flag bytes (change-IP / change-port and the reserved bits): whatever
+        // address and port the answer leaves from, its checksums cover the header it carries
+        sweep_frames(rep, &cfg, &format!("stun-change-flags-{}", tag), "CHANGE-REQUEST flag byte 0..255 x {classic 28-byte, magic with attribute} x {v4,v6} x 2 destination addresses", 256 * 2 * 2 * 2, |i| {
+            let d = unrank(i, &[256, 2, 2, 2]);
+            let a = stun_attr(3, &[0, 0, 0, d[0] as u8]);
+            let m = if d[1] == 0 { stun_classic(&a, &ID16) } else { stun_magic(&a, &ID12) };
+            let mut f = flow(d[2] == 1, 40000, 3478);
+            if d[3] == 1 {
+                f.sip = if d[2] == 1 { srv6b() } else { srv4b() };
+            }
+            f.udp(&m)
+        });
         // SYNs carrying TCP options (MSS incl. 0, window scale, SACK-permitted, timestamps, unknown
         // kinds, malformed lengths): the SYN-ACK stays well-formed (window != 0, data offset 5)
         {
